@@ -177,7 +177,7 @@ def run_shard(shard: Dict[str, Any]) -> Acc:
             acc.hist("class", "library/" + inp["constructor"])
             acc.hist("cycles", inp["cycles"])
             acc.case(bp.phash(inp), inp["cycles"] >= 2, sample=inp if i < 3 else None)
-            check_library(inp, acc)
+            common.guarded(acc, check_library, inp, acc, case={"library": inp})
         return acc
     classes = shard["classes"]
     for i in range(shard["n"]):
@@ -185,7 +185,7 @@ def run_shard(shard: Dict[str, Any]) -> Acc:
         prog = gen_case(rng, cls)
         acc.hist("class", cls)
         flags: Dict[str, Any] = {}
-        common.guarded(acc, check_program, prog, acc, flags)
+        common.guarded(acc, check_program, prog, acc, flags, case={"program": prog})
         acc.case(bp.phash(prog), bool(flags.get("nontrivial")), sample=prog if i < 40 else None)
     return acc
 
